@@ -121,6 +121,47 @@ def main():
         die("request_valid limits not found")
     max_extras, max_key = int(m1.group(1)), int(m2.group(1))
 
+    # the dispatch of parse_request on the opcode: `Some(binary::Command::X) | ... => self.parse_y(src)`
+    m = re.search(r"let result = match FromPrimitive::from_u8\(self\.header\.opcode\)\s*\{(.*?)\n        \};", codec, re.S)
+    if not m:
+        die("parse_request: opcode dispatch not found")
+    body = m.group(1)
+    parser_ids = {"parse_get_request": 1, "parse_append_prepend_request": 2, "parse_set_request": 3,
+                  "parse_delete_request": 4, "parse_inc_dec_request": 5, "parse_header_only_request": 6,
+                  "parse_flush_request": 7, "NotSupported": 8, "invalid": 0}
+    cmd_names = dict(cmds)
+    dispatch = []   # (list of command names, parser id)
+    seen_cmds = set()
+    # split into arms: a pattern (alternatives of Some(binary::Command::X) or None) followed by =>
+    arms = re.findall(r"((?:\s*\|?\s*(?:Some\(binary::Command::[A-Za-z]+\)|None))+)\s*=>\s*(\{.*?\n            \}|[^\n]*?,)\s*(?=\n\s*(?:Some|None|$)|\Z)", body, re.S)
+    if not arms:
+        die("parse_request: no dispatch arms parsed")
+    for pat, rhs in arms:
+        names = re.findall(r"binary::Command::([A-Za-z]+)", pat)
+        if "None" in pat and not names:
+            continue
+        mm = re.search(r"self\.(parse_[a-z_]+)\(src\)", rhs)
+        if mm:
+            if mm.group(1) not in parser_ids:
+                die("parse_request: unknown parser %s" % mm.group(1))
+            pid = parser_ids[mm.group(1)]
+        elif "BinaryRequest::NotSupported" in rhs:
+            pid = parser_ids["NotSupported"]
+        elif "Err(" in rhs:
+            pid = parser_ids["invalid"]
+        else:
+            die("parse_request: cannot classify arm for %s: %r" % (names, rhs[:80]))
+        for n in names:
+            if n not in cmd_names:
+                die("parse_request: unknown command %s" % n)
+            if n in seen_cmds:
+                die("parse_request: command %s matched twice" % n)
+            seen_cmds.add(n)
+        dispatch.append((names, pid))
+    missing = [n for n, _ in cmds if n not in seen_cmds]
+    if missing:
+        die("parse_request: commands without an arm: %s" % missing)
+
     L = []
     A = L.append
     A("(* GENERATED by tools/gen_tables.py from the Rust sources — do not edit. *)")
@@ -155,6 +196,12 @@ def main():
     A("Definition MAX_KEY : N := %d." % max_key)
     A("Definition SKIP_BUFFER : N := %d." % skip_buf)
     A("Definition version_bytes : list byte := %s. (* %s *)" % (coq_bytes(version.encode()), version))
+    A("")
+    A("(* MemcacheBinaryCodec::parse_request: which body parser each command is handed to")
+    A("   (1 get, 2 append/prepend, 3 set/add/replace, 4 delete, 5 incr/decr, 6 header only, 7 flush,")
+    A("   8 'not supported' frame, 0 error); opcodes outside enum Command are errors *)")
+    A("Definition decode_dispatch : list (list N * N) :=")
+    A("  [" + ";\n   ".join("([%s], %d)" % ("; ".join("cmd_" + n for n in names), pid) for names, pid in dispatch) + "].")
     A("")
     text = "\n".join(L)
     out = os.path.normpath(OUT)
